@@ -4,7 +4,7 @@
    exercised by the oracle comparison of harness/props/c01.py.  C01 is PARTIAL. *)
 From Coq Require Import List Arith Bool Lia ZArith QArith.
 From Verif.C06 Require Import Model.
-From Verif.C01 Require Import Model Proofs Kernel.
+From Verif.C01 Require Import Model Proofs Kernel Printer.
 Import ListNotations.
 Close Scope Q_scope. Open Scope nat_scope.
 
@@ -245,6 +245,15 @@ Print Assumptions kernel_body_accumulates.
 Print Assumptions entry_denotes_gauss_sum.
 Print Assumptions entry_denotes_full_gauss_sum.
 
+(* The concrete syntax (coq/C01/Printer.v): [print] mirrors gencode_* token by token (every binary node in
+   brackets, prefix minus, f(...)); [parse] is a precedence-climbing parser with the operator precedence of
+   C/Cython (unary minus > * / > + -, left associative).  Reading the printed code back gives the expression tree
+   it was printed from, for EVERY tree: the brackets gencode_scalaroper emits are sufficient.  (Examples.v shows a
+   printer that omits them around products fails on x / (a * b).) *)
+Theorem printed_code_parses_back : forall (F : Type) (c : cexpr F), parse F (print F c) = Some c.
+Proof. exact printed_code_parses_back_l. Qed.
+Print Assumptions printed_code_parses_back.
+
 (* NOT PROVED within the model:
      - the precompute_fields function: the same statement with the store threading of `fields`/`temp_fields`
        written per node BEFORE the kernel runs; here it is the hypothesis [Agree] on the variables in [known]
@@ -253,8 +262,10 @@ Print Assumptions entry_denotes_full_gauss_sum.
      - symmetric variables (one stored slot for (i,j) and (j,i)): [lay] is assumed injective on (variable, entry);
        needs the user's promise that the defining matrix expression is symmetric;
      - vector-valued kernels (r[k] += ...) are the componentwise instance, not stated separately;
-     - that the text printed by CodeGen is the concrete syntax of [cexpr]: tied by the slot-level comparison
-       (every var_ref slot = model slot, exact) and the statement-order check of harness/props/c01.py. *)
+     - that the characters printed by CodeGen are the token streams of [print]: tied exactly on every run (the token
+       stream of the generated text of sampled expressions = [print] of their tree, compared inside Coq; and an
+       independent C-precedence parser in harness/props/c01.py reads every printed expression back to its tree),
+       together with the slot-level comparison and the statement-order check. *)
 
 (* NOT PROVED (layer 4, runtime only):
      forall well-formed form F, space, geometry, inputs:
